@@ -220,7 +220,7 @@ def tableDispatch (s : Scenario) : Outcome :=
 
 /-- The decision table of DESIGN.md §5 C04 in closed form: the first condition that holds decides. -/
 def table (s : Scenario) : Outcome :=
-  if !s.requestInfoOK then .plainError 500
+  if !s.requestInfoOK then .terminated ⟨500, none, ⟨kStatus, kV1, kFailure, kInternalError, 500⟩⟩
   else if s.hostIsIP then
     (if !s.authOK then .terminated ⟨401, none, ⟨kStatus, kV1, kFailure, kUnauthorized, 401⟩⟩
      else match s.imp with
